@@ -55,6 +55,8 @@ def cases(tier, rng):
         line = "c15 ws %s %d 0 20" % (st, n)
         cs.append({"line": line, "key": line, "model": False, "tags": {"carrier": "ws", "stall": st + "x20"}})
     # a DNS peer whose refusal is queued for it and which then stops polling for good; the server gives up at the handshake limit
+    line = "c15 dns between-late %d 1" % n      # silent past the handshake limit after its first request, then its second request
+    cs.append({"line": line, "key": line, "model": False, "tags": {"carrier": "dns", "stall": "between-late+expired"}})
     line = "c15 dns garbage-vanish %d 1" % n
     cs.append({"line": line, "key": line, "model": False, "tags": {"carrier": "dns", "stall": "garbage-vanish+expired"}})
     # the DNS endpoint: a tunnel peer of the scenario's own completes the tunnel's negotiation (a session is open on the endpoint) and
